@@ -251,7 +251,7 @@ PROPS['C18'] = {
     'level': 'exploration',
     'engine': 'E',
     'parts': [{'src': 'harness/anyid.cpp', 'prefix': 'C18/', 'variants': ['g17O0'], 'quick_variants': ['g17O0']}, {'src': 'harness/anyid.cpp', 'prefix': 'C18/', 'variants': ['c17'], 'tier': 'thorough'}],
-    'rule': 'complete enumeration: 16 ids built from values of mixed types (int/long/char 0,1,2; strings "", "a", "b", "ab", "1"; an enum; a second instance of an equal value) x digesters {std::hash, 1-bit digester (collisions between every pair of classes), constant digester} x storage {EmptyAnyStorage, type-tagged value with == and <, textual value with == and < (values of different types collapse to equal stored copies)}: all pairs and all triples for reflexivity, symmetry, transitivity of ==, irreflexivity/asymmetry/transitivity of <, transitivity of incomparability, incomparable <=> equal, equal => equal hash, value storage keeps colliding digests distinct, without storage equal <=> digest equal; every (a,b) through EventDispatcher with std::map and std::unordered_map (single key and all keys registered); distinct = distinct (configuration, ==, <, >, digest-equal) patterns observed',
+    'rule': 'complete enumeration: 16 ids built from values of mixed types (int/long/char 0,1,2; strings "", "a", "b", "ab", "1"; an enum; a second instance of an equal value) x digesters {std::hash, 1-bit digester (collisions between every pair of classes), constant digester, a two-word digest whose conversion to size_t is lossy, a std::string digest} x storage {EmptyAnyStorage, type-tagged value with == and <, textual value with == and < (values of different types collapse to equal stored copies)}: all pairs and all triples for reflexivity, symmetry, transitivity of ==, irreflexivity/asymmetry/transitivity of <, transitivity of incomparability, incomparable <=> equal, equal => equal hash, value storage keeps colliding digests distinct, without storage equal <=> digest equal; every (a,b) through EventDispatcher with std::map and std::unordered_map (single key and all keys registered); distinct = distinct (configuration, ==, <, >, digest-equal) patterns observed',
     'assumptions': E_ASSUME,
     'bounds': {'quick': 'all pairs/triples, g++', 'thorough': 'same under g++ and clang++'},
     'technique': 'bounded-exhaustive enumeration of all pairs and triples over a finite value alphabet on the real code',
